@@ -184,6 +184,7 @@ def kernels():
                 e = shim.CE.lift(lits[0][i, j])
                 g.add('%s_ph_%d_%d' % (tag, i, j), ['k'] + KARGS, ph[i, j])
                 if tag in ('nas', 'nbl'): g.add('%s_rad_%d_%d' % (tag, i, j), ['k'] + KARGS, W._radicand(ph[i, j]))
+                if tag == 'nbl': g.add('nbl_mask_%d_%d' % (i, j), ['k'] + KARGS, W._mask_of_pixel(e))
                 g.add('%s_re_%d_%d' % (tag, i, j), ['k'] + KARGS, e.re); g.add('%s_im_%d_%d' % (tag, i, j), ['k'] + KARGS, e.im)
     return g
 
